@@ -57,6 +57,15 @@ def gen_Units(repo):
                 ok = True
     if not ok:
         raise AnchorLost("units.py:compute_conversion_factor product formula")
+    # the documented parameter names and order of the two conversion functions, and convert_value's single return
+    if [a.arg for a in ccf.args.args] != ["su_src", "su_dst", "sdim"]:
+        raise AnchorLost("units.py:compute_conversion_factor parameters (su_src, su_dst, sdim)")
+    cv = units.func("convert_value")
+    if [a.arg for a in cv.args.args] != ["value", "su_src", "su_dst", "sdim"]:
+        raise AnchorLost("units.py:convert_value parameters (value, su_src, su_dst, sdim)")
+    rets = [re.sub(r"\s+", "", units.seg(n.value)) for n in ast.walk(cv) if isinstance(n, ast.Return) and n.value is not None]
+    if rets != ["value*compute_conversion_factor(su_src,su_dst,sdim)"]:
+        raise AnchorLost("units.py:convert_value return value*compute_conversion_factor(su_src,su_dst,sdim)")
 
     pu = units.func("parse_units")
     # the s.replace(a, b) chain, in order
@@ -1723,7 +1732,76 @@ def gen_SystemPy(repo):
                                 if isinstance(b, ast.If) and any(isinstance(r, ast.Raise) for r in b.body):
                                     bad = _ExprTrMin(rds, {"int(e)": "e", "self.network.nenvironments()": "nenv"}).tr(b.test)
     L.append("/-- `RDSystem.space` setter: a cell environment index for which this holds is rejected (`false` = no validation) -/")
-    L.append("def spaceEnvBad (nenv e : Int) : Bool := %s" % (bad if bad is not None else "false"))
+    L.append("def spaceEnvBad (nenv e : Int) : Bool := %s\n" % (bad if bad is not None else "false"))
+
+    # ---- constructor defaults of the space classes (documented: 1 x 1 x 1 grid, environment 0, cell volume 1 in the SPACE's
+    #      units system, reflecting boundaries; graph node: volume 1, environment 0; edge: surface 1, distance 1)
+    gridsrc = PySrc(repo, "src/strengths/rdgridspace.py")
+    graphsrc = PySrc(repo, "src/strengths/rdgraphspace.py")
+
+    def ctor_defaults(src, cls):
+        fn = src.func("__init__", cls)
+        args = fn.args.args[1:]
+        dfl = fn.args.defaults
+        pad = [None] * (len(args) - len(dfl)) + list(dfl)
+        return [(a.arg, None if v is None else _norm(src, v), v) for a, v in zip(args, pad)]
+
+    def num_default(lst, name, what):
+        """the default of parameter `name` as an exact number when it is a numeric literal, else None (e.g. a unit string:
+        then the value no longer lives in the owner's units system)"""
+        for a, txt, node in lst:
+            if a == name:
+                try:
+                    return const_number(src_of[what], node, {})
+                except AnchorLost:
+                    return None
+        raise AnchorLost("%s.__init__ parameter %s" % (what, name))
+    src_of = {"RDGridSpace": gridsrc, "RDGraphSpaceNode": graphsrc, "RDGraphSpaceEdge": graphsrc, "RDGraphSpace": graphsrc, "RDSystem": rds}
+    dl = {c: ctor_defaults(src_of[c], c) for c in src_of}
+
+    def pairs2(lst):
+        return lean_list(["(%s, %s)" % (lean_str(a), lean_str("<required>" if t is None else t)) for a, t, _ in lst])
+    L.append("/-- constructor signatures with their defaults (normalised source text), in order -/")
+    L.append("def gridCtorDefaults : List (String × String) := %s" % pairs2(dl["RDGridSpace"]))
+    L.append("def graphNodeCtorDefaults : List (String × String) := %s" % pairs2(dl["RDGraphSpaceNode"]))
+    L.append("def graphEdgeCtorDefaults : List (String × String) := %s" % pairs2(dl["RDGraphSpaceEdge"]))
+    L.append("def graphCtorDefaults : List (String × String) := %s" % pairs2(dl["RDGraphSpace"]))
+    L.append("def systemCtorDefaults : List (String × String) := %s" % pairs2(dl["RDSystem"]))
+
+    def opt_rat(v):
+        return "none" if v is None else "(some %s)" % lean_rat(v)
+    L.append("/-- numeric defaults (`none` when the default is not a bare number, i.e. not expressed in the owner's units system) -/")
+    L.append("def gridDefaultCellVol : Option Rat := %s" % opt_rat(num_default(dl["RDGridSpace"], "cell_vol", "RDGridSpace")))
+    L.append("def gridDefaultCellEnv : Option Rat := %s" % opt_rat(num_default(dl["RDGridSpace"], "cell_env", "RDGridSpace")))
+    L.append("def gridDefaultW : Option Rat := %s" % opt_rat(num_default(dl["RDGridSpace"], "w", "RDGridSpace")))
+    L.append("def gridDefaultH : Option Rat := %s" % opt_rat(num_default(dl["RDGridSpace"], "h", "RDGridSpace")))
+    L.append("def gridDefaultD : Option Rat := %s" % opt_rat(num_default(dl["RDGridSpace"], "d", "RDGridSpace")))
+    L.append("def nodeDefaultVolume : Option Rat := %s" % opt_rat(num_default(dl["RDGraphSpaceNode"], "volume", "RDGraphSpaceNode")))
+    L.append("def nodeDefaultEnv : Option Rat := %s" % opt_rat(num_default(dl["RDGraphSpaceNode"], "environment", "RDGraphSpaceNode")))
+    # the boundary conditions a grid starts from (set_boundary_conditions: the literal dict it assigns before applying the argument)
+    sbc = gridsrc.func("set_boundary_conditions", "RDGridSpace")
+    init = None
+    for st in ast.walk(sbc):
+        if isinstance(st, ast.Assign) and _norm(gridsrc, st.targets[0]) == "self._boundary_conditions" and isinstance(st.value, ast.Dict):
+            init = [(const_str(k), const_str(v)) for k, v in zip(st.value.keys, st.value.values)]
+    ini = gridsrc.func("__init__", "RDGridSpace")
+    none_to_empty = any(isinstance(st, ast.If) and _norm(gridsrc, st.test) == "isnone(boundary_conditions)"
+                        and [_norm(gridsrc, b) for b in st.body] == ["boundary_conditions={}"] for st in ini.body)
+    if init is None or not none_to_empty:
+        raise AnchorLost("rdgridspace.py: initial boundary conditions")
+    # ---- copy() of the classes a system is made of: body as normalised statements (deep copy of the whole object)
+    netsrc = PySrc(repo, "src/strengths/rdnetwork.py")
+
+    def copy_body(src, cls):
+        fn = src.func("copy", cls)
+        return [_norm(src, st) for st in fn.body if not (isinstance(st, ast.Expr) and isinstance(st.value, ast.Constant))]
+    L.append("/-- `copy()` bodies (normalised statements): RDSystem, RDGridSpace, RDGraphSpace, RDNetwork, Species -/")
+    for nm, src_, cls in (("systemCopyBody", rds, "RDSystem"), ("gridCopyBody", gridsrc, "RDGridSpace"), ("graphCopyBody", graphsrc, "RDGraphSpace"),
+                          ("networkCopyBody", netsrc, "RDNetwork"), ("speciesCopyBody", netsrc, "Species")):
+        L.append("def %s : List String := %s" % (nm, lean_list([lean_str(x) for x in copy_body(src_, cls)])))
+    L.append("/-- boundary conditions of a grid built without the argument (`None` -> `{}` -> this dictionary) -/")
+    L.append("def gridDefaultBoundary : List (String × String) := %s" %
+             lean_list(["(%s, %s)" % (lean_str(a), lean_str(b)) for a, b in init]))
     L.append("\nend Strengths.Gen")
     return "\n".join(L) + "\n"
 
@@ -3564,4 +3642,258 @@ def gen_KineticsPy(repo):
         ret = [st for st in fn.body if isinstance(st, ast.Return)]
         L.append("def pyRet%s : String := %s" % (fname, lean_str(_norm(lre, ret[-1]) if ret else "")))
     L.append("\nend Strengths.Gen")
+    return "\n".join(L) + "\n"
+
+
+# =============================================================================================
+# Marshal: the Python <-> C++ boundary of LibRDEngine as a structured table (types, sources, unit conversions),
+# the parameter lists of the two native initialisers, and the two read-back functions
+# =============================================================================================
+@group
+def gen_Marshal(repo):
+    lre = PySrc(repo, "src/strengths/librdengine.py")
+    eng = _cpp(repo, "engine.cpp")
+    L = ["namespace Strengths.Gen.Marshal\n",
+         "inductive CTy | int | dbl | str | intArr | dblArr\n  deriving DecidableEq, Repr\n",
+         "/-- how a value reaches the engine: as it is; converted to the engine's units system (`.convert(units_system).value`);\n"
+         "built by a `build_*_matrix(…, units_system)` function; wrapped as `UnitArray([...], Units(sys=units_system, dim=…)).value` -/",
+         "inductive Conv | none | toEngine | builtInEngine | labelledEngine\n  deriving DecidableEq, Repr\n",
+         "structure PyArg where\n  ty : CTy\n  src : String\n  conv : Conv\n  dim : String\n  deriving DecidableEq, Repr\n",
+         "structure CParam where\n  ty : CTy\n  name : String\n  deriving DecidableEq, Repr\n"]
+
+    def n(node):
+        return _norm(lre, node)
+
+    def is_call(node, fname):
+        return isinstance(node, ast.Call) and n(node.func) == fname
+
+    def converted(node):
+        """E.convert(units_system).value -> (E, True); E.value / E -> (text, False)"""
+        if isinstance(node, ast.Attribute) and node.attr == "value" and isinstance(node.value, ast.Call) \
+                and isinstance(node.value.func, ast.Attribute) and node.value.func.attr == "convert" \
+                and len(node.value.args) == 1 and not node.value.keywords and n(node.value.args[0]) == "units_system":
+            return n(node.value.func.value), True
+        return n(node), False
+
+    def parse_arg(a, where):
+        if not isinstance(a, ast.Call) or a.keywords:
+            raise AnchorLost("librdengine.py:%s argument is not a ctypes wrapper call: %s" % (where, n(a)[:60]))
+        f = n(a.func)
+        if f == "ctypes.c_int" and len(a.args) == 1:
+            return ("int", n(a.args[0]), "none", "")
+        if f == "ctypes.c_double" and len(a.args) == 1:
+            src, cv = converted(a.args[0])
+            return ("dbl", src, "toEngine" if cv else "none", "")
+        if f == "ctypes.c_char_p" and len(a.args) == 1:
+            inner = a.args[0]
+            if isinstance(inner, ast.Call) and isinstance(inner.func, ast.Attribute) and inner.func.attr == "encode" and not inner.args:
+                v = inner.func.value
+                return ("str", n(v), "none", "")
+            raise AnchorLost("librdengine.py:%s c_char_p argument is not <text>.encode()" % where)
+        if f == "make_ctypes_array" and len(a.args) == 2:
+            t = n(a.args[1])
+            if t not in ("ctypes.c_int", "ctypes.c_double"):
+                raise AnchorLost("librdengine.py:%s make_ctypes_array element type %s" % (where, t))
+            ty = "intArr" if t == "ctypes.c_int" else "dblArr"
+            x = a.args[0]
+            if isinstance(x, ast.Call) and isinstance(x.func, ast.Name) and x.func.id.startswith("build_"):
+                args = [n(v) for v in x.args]
+                if args and args[-1] == "units_system":
+                    return (ty, x.func.id + "(" + ",".join(args[:-1]) + ")", "builtInEngine", "")
+                return (ty, x.func.id + "(" + ",".join(args) + ")", "none", "")
+            if isinstance(x, ast.Attribute) and x.attr == "value" and is_call(x.value, "UnitArray") and len(x.value.args) == 2 \
+                    and is_call(x.value.args[1], "Units"):
+                kws = {k.arg: n(k.value) for k in x.value.args[1].keywords}
+                if kws.get("sys") == "units_system" and kws.get("dim", "").endswith("_units_dimensions()"):
+                    return (ty, n(x.value.args[0]), "labelledEngine", kws["dim"][:-len("_units_dimensions()")])
+                return (ty, n(x), "none", "")
+            src, cv = converted(x)
+            return (ty, src, "toEngine" if cv else "none", "")
+        raise AnchorLost("librdengine.py:%s unknown argument wrapper %s" % (where, f))
+
+    def cty(decl, where):
+        d = re.sub(r"\s+", " ", decl.strip())
+        m = re.match(r"^(const char \*|double \*|int \*|double|int) ?(\w+)$", d)
+        if not m:
+            raise AnchorLost("engine.cpp:%s parameter declaration %r" % (where, d))
+        return {"const char *": "str", "double *": "dblArr", "int *": "intArr", "double": "dbl", "int": "int"}[m.group(1)], m.group(2)
+
+    for tag, fname, cname in (("Grid", "_setup_grid", "engineexport_initialize_grid"), ("Graph", "_setup_graph", "engineexport_initialize_graph")):
+        fn = lre.func(fname, "LibRDEngine")
+        call = None
+        for node in ast.walk(fn):
+            if isinstance(node, ast.Call) and n(node.func) == "self._lib." + cname:
+                call = node
+        if call is None or call.keywords:
+            raise AnchorLost("librdengine.py:%s call of %s with positional arguments" % (fname, cname))
+        rows = [parse_arg(a, fname) for a in call.args]
+        L.append("/-- `LibRDEngine.%s`: the arguments of `%s`, in order -/" % (fname, cname))
+        L.append("def py%s : List PyArg := %s" % (tag, lean_list(
+            ["⟨.%s, %s, .%s, %s⟩" % (t, lean_str(s), c, lean_str(d)) for t, s, c, d in rows])))
+        m = re.search(r"extern\s+\"C\"\s+int\s+%s\s*\(([^)]*)\)" % cname, eng)
+        if not m:
+            raise AnchorLost("engine.cpp:%s signature" % cname)
+        params = [cty(p, cname) for p in m.group(1).split(",") if p.strip()]
+        L.append("/-- `%s` in engine.cpp: parameter types and names, in order -/" % cname)
+        L.append("def cpp%s : List CParam := %s\n" % (tag, lean_list(["⟨.%s, %s⟩" % (t, lean_str(nm)) for t, nm in params])))
+
+    # ---- setup(): the engine's units system
+    su = lre.func("setup", "LibRDEngine")
+    st = _stmt_texts(lre, su, lambda t: t.startswith("units_system") or t.startswith("self._units_system") or t.startswith("ifself._requires_molecules"))
+    L.append("/-- `LibRDEngine.setup`: how the engine's units system is derived from the script's -/")
+    L.append("def pyEngineUnits : List String := %s\n" % lean_list([lean_str(s) for s in _need(st, "LibRDEngine.setup units_system statements")]))
+
+    # ---- read-back
+    L.append("structure ReadBack where\n  count : String\n  length : String\n  buffer : String\n  native : String\n  alloc : String\n"
+             "  copyLoop : String\n  labelSys : String\n  labelDim : String\n  convertTo : String\n  deriving DecidableEq, Repr\n")
+    for tag, fname, var, cfn in (("Data", "_get_data", "data", "engineexport_get_trajectory"), ("TSample", "_get_t_sample", "t_sample", "engineexport_get_tsample")):
+        fn = lre.func(fname, "LibRDEngine")
+        asg = {}
+        for s_ in fn.body:
+            if isinstance(s_, ast.Assign) and len(s_.targets) == 1 and isinstance(s_.targets[0], ast.Name):
+                asg[s_.targets[0].id] = n(s_.value)
+        count = asg.get("n_sample", "")
+        length = asg.get("data_len", "") if fname == "_get_data" else "n_sample"
+        lname = "data_len" if fname == "_get_data" else "n_sample"
+        buf = asg.get(var + "_", "")
+        nat = [n(s_.value) for s_ in fn.body if isinstance(s_, ast.Expr) and isinstance(s_.value, ast.Call)]
+        loops = [n(s_) for s_ in fn.body if isinstance(s_, ast.For)]
+        ret = [s_ for s_ in fn.body if isinstance(s_, ast.Return)]
+        if not (count and length and buf and len(nat) == 1 and len(loops) == 1 and len(ret) == 1 and var in asg):
+            raise AnchorLost("librdengine.py:%s shape (count, buffer, one native call, one copy loop, one return)" % fname)
+        r = ret[0].value
+        # UnitArray(value=<var>, units=Units(sys=…, dim=…), check_value=False).convert(<target>)
+        if not (isinstance(r, ast.Call) and isinstance(r.func, ast.Attribute) and r.func.attr == "convert" and len(r.args) == 1
+                and is_call(r.func.value, "UnitArray")):
+            raise AnchorLost("librdengine.py:%s return UnitArray(...).convert(...)" % fname)
+        kw = {k.arg: k.value for k in r.func.value.keywords}
+        if n(kw.get("value", ast.Constant(None))) != var or not is_call(kw.get("units"), "Units"):
+            raise AnchorLost("librdengine.py:%s returned UnitArray(value=%s, units=Units(...))" % (fname, var))
+        ukw = {k.arg: n(k.value) for k in kw["units"].keywords}
+        L.append("/-- `LibRDEngine.%s` -/" % fname)
+        L.append("def py%s : ReadBack := ⟨%s⟩" % (tag, ", ".join(lean_str(x) for x in (
+            count, length, buf.replace(lname, "LEN"), nat[0], asg[var].replace(lname, "LEN"), loops[0].replace(lname, "LEN"),
+            ukw.get("sys", ""), ukw.get("dim", ""), n(r.args[0])))))
+        m = re.search(r"extern\s+\"C\"\s+int\s+%s\s*\(([^)]*)\)" % cfn, eng)
+        if not m:
+            raise AnchorLost("engine.cpp:%s signature" % cfn)
+        ps = [cty(p, cfn) for p in m.group(1).split(",") if p.strip()]
+        L.append("def cpp%s : List CParam := %s\n" % (tag, lean_list(["⟨.%s, %s⟩" % (t, lean_str(nm)) for t, nm in ps])))
+    L.append("end Strengths.Gen.Marshal")
+    return "\n".join(L) + "\n"
+
+
+# =============================================================================================
+# CppNumeric: where the C++ engine leaves double / unbounded-integer arithmetic (the model's numbers are exact
+# rationals and unbounded integers): `int` variables initialised from expressions, casts, single-precision tokens,
+# integer-literal divisions
+# =============================================================================================
+@group
+def gen_CppNumeric(repo):
+    files = ["engine.cpp", "SimulationAlgorithm3DBase.hpp", "SimulationAlgorithmGraphBase.hpp", "Euler3D.hpp", "EulerGraph.hpp",
+             "TauLeap3D.hpp", "TauLeapGraph.hpp", "Gillespie3D.hpp", "GillespieGraph.hpp"]
+    inits, casts, floats, litdiv, narrow = [], [], [], [], []
+    ident = re.compile(r"[A-Za-z_]\w*")
+    for f in files:
+        txt = _cpp(repo, f)
+        txt = re.sub(r"\"(?:\\.|[^\"\\])*\"", '""', txt)       # string literals out
+        # `for(int i=0; …)` headers are loop counters: recorded separately (name = start value)
+        body = re.sub(r"for\s*\(\s*(?:int|size_t|unsigned|long)\s+\w+\s*=\s*[^;]*;", "for(;", txt)
+        for m in re.finditer(r"(?<![\w:<])(int|long|short|unsigned(?:\s+int)?|size_t|float)\s+(\w+)\s*=\s*([^;{}]*);", body):
+            ty, name, rhs = m.group(1), m.group(2), re.sub(r"\s+", "", m.group(3))
+            ids = sorted(set(ident.findall(re.sub(r"static_cast<[^>]*>", "", rhs))))
+            inits.append((f, ty, name, rhs, ids, bool(re.search(r"\d\.\d|\d\.(?!\w)|\de[-+]?\d", rhs))))
+        for m in re.finditer(r"static_cast\s*<\s*([^>]+?)\s*>\s*\(", txt):
+            # argument up to the matching parenthesis
+            i, depth = m.end(), 1
+            while i < len(txt) and depth:
+                depth += {"(": 1, ")": -1}.get(txt[i], 0)
+                i += 1
+            casts.append((f, re.sub(r"\s+", "", m.group(1)), re.sub(r"\s+", "", txt[m.end():i - 1])))
+        for m in re.finditer(r"\((?:int|long|float|short|unsigned)\)\s*[\w(]", txt):
+            casts.append((f, "c-style", re.sub(r"\s+", "", m.group(0))))
+        for m in re.finditer(r"\bfloat\b|(?<![\w.])\d+\.?\d*(?:e[-+]?\d+)?f\b|(?<![\w.])\.\d+f\b", txt):
+            floats.append((f, m.group(0)))
+        for m in re.finditer(r"(?<![\w.])(\d+)\s*/\s*(\d+)(?![\w.])", txt):
+            litdiv.append((f, re.sub(r"\s+", "", m.group(0))))
+        for m in re.finditer(r"numeric_limits|\bepsilon\b|\bFLT_|\bDBL_EPSILON\b|\bINT_MAX\b|\blround\b|\blrint\b|\b(?:std::)?round\s*\(|\btrunc\s*\(", txt):
+            narrow.append((f, re.sub(r"\s+", "", m.group(0))))
+    if not inits or not casts:
+        raise AnchorLost("engine sources: no int initialisations / casts found (pattern)")
+    L = ["namespace Strengths.Gen.CppNumeric\n",
+         "structure IntInit where\n  file : String\n  ty : String\n  name : String\n  rhs : String\n  idents : List String\n  hasRealLiteral : Bool\n  deriving DecidableEq, Repr\n",
+         "/-- every `int|long|short|unsigned|size_t|float NAME = RHS;` outside `for` headers, with the identifiers of RHS (cast type names removed) -/",
+         "def intInits : List IntInit := %s\n" % lean_list(
+             ["⟨%s, %s, %s, %s, %s, %s⟩" % (lean_str(f), lean_str(ty), lean_str(nm), lean_str(rhs), lean_list([lean_str(i) for i in ids]),
+                                         "true" if rl else "false") for f, ty, nm, rhs, ids, rl in inits]),
+         "/-- every `static_cast<T>(ARG)` and C-style narrowing cast: (file, T, ARG) -/",
+         "def casts : List (String × String × String) := %s\n" % lean_list(
+             ["(%s, %s, %s)" % (lean_str(f), lean_str(t), lean_str(a)) for f, t, a in casts]),
+         "/-- `float` keywords and `f`-suffixed literals -/",
+         "def floatTokens : List (String × String) := %s\n" % lean_list(["(%s, %s)" % (lean_str(f), lean_str(t)) for f, t in floats]),
+         "/-- integer literal divided by integer literal (`1/3` is 0 in C++) -/",
+         "def intLiteralDivisions : List (String × String) := %s\n" % lean_list(["(%s, %s)" % (lean_str(f), lean_str(t)) for f, t in litdiv]),
+         "/-- tolerance / rounding vocabulary (`numeric_limits`, `epsilon`, `round(`, `trunc(`, …) -/",
+         "def toleranceTokens : List (String × String) := %s\n" % lean_list(["(%s, %s)" % (lean_str(f), lean_str(t)) for f, t in narrow]),
+         "end Strengths.Gen.CppNumeric"]
+    return "\n".join(L) + "\n"
+
+
+# =============================================================================================
+# PyNumeric: where the Python package could leave double precision / exactness (the model computes with exact
+# rationals; text goes through repr): rounding and tolerance calls, narrow dtypes, `astype`, limited-digit format
+# specifications, floor division — one inventory per source file
+# =============================================================================================
+PYNUMERIC_FILES = ["units.py", "constants.py", "value_processing.py", "rdnetwork.py", "rdgridspace.py", "rdgraphspace.py", "rdspace.py",
+                   "rdsystem.py", "rdscript.py", "rdoutput.py", "librdengine.py", "kinetics.py", "simulate.py", "coarsegrain.py",
+                   "engine_collection.py", "filepath.py", "text_array_rw.py"]
+
+
+@group
+def gen_PyNumeric(repo):
+    calls = {"round", "np.round", "np.around", "numpy.round", "np.isclose", "np.allclose", "math.isclose", "np.floor", "np.ceil",
+             "math.floor", "math.ceil", "np.trunc", "math.trunc", "np.rint", "np.fix", "np.nextafter", "np.spacing", "np.finfo"}
+    narrow = re.compile(r"(float16|float32|single|half|int8|int16|int32|uint8|uint16|uint32|uint64|c_float|c_short|c_long|c_int64|c_uint|longdouble|float128)$")
+    fmt = re.compile(r"%[-+0 #]*\d*(?:\.\d+)?[eEfFgGdi]|\{[^{}]*:[^{}]*\}")
+    L = ["namespace Strengths.Gen.PyNumeric\n",
+         "/-- per source file: (kind, normalised text) of every rounding / tolerance call, `dtype=` value, narrow numeric type name,\n"
+         "`astype`, limited-digit format specification, floor division -/"]
+    names = []
+    for rel in PYNUMERIC_FILES:
+        src = PySrc(repo, "src/strengths/" + rel)
+        inv = []
+        for node in ast.walk(src.tree):
+            if isinstance(node, ast.Call):
+                f = _norm(src, node.func)
+                if f in calls:
+                    inv.append((node.lineno, node.col_offset, "call", _norm(src, node)))
+                if isinstance(node.func, ast.Attribute) and node.func.attr in ("astype", "view", "round", "tobytes"):
+                    if node.func.attr != "tobytes":
+                        inv.append((node.lineno, node.col_offset, node.func.attr, _norm(src, node)))
+                if isinstance(node.func, ast.Attribute) and node.func.attr == "format":
+                    inv.append((node.lineno, node.col_offset, "format", _norm(src, node.func.value)))
+                for kw in node.keywords:
+                    if kw.arg == "dtype":
+                        inv.append((node.lineno, node.col_offset, "dtype", _norm(src, kw.value)))
+            elif isinstance(node, ast.Attribute) and narrow.search(node.attr):
+                inv.append((node.lineno, node.col_offset, "type", _norm(src, node)))
+            elif isinstance(node, ast.Name) and narrow.search(node.id):
+                inv.append((node.lineno, node.col_offset, "type", node.id))
+            elif isinstance(node, ast.Constant) and isinstance(node.value, str) and node.value in ("f", "f4", "f2", "e", "i4", "i2", "i1", "u1", "<f4", "float32", "int32", "single"):
+                inv.append((node.lineno, node.col_offset, "type", repr(node.value)))
+            elif isinstance(node, ast.BinOp) and isinstance(node.op, ast.Mod) and isinstance(node.left, ast.Constant) \
+                    and isinstance(node.left.value, str) and fmt.search(node.left.value):
+                inv.append((node.lineno, node.col_offset, "format", node.left.value))
+            elif isinstance(node, ast.FormattedValue) and node.format_spec is not None:
+                inv.append((node.lineno, node.col_offset, "format", _norm(src, node)))
+            elif isinstance(node, ast.BinOp) and isinstance(node.op, ast.FloorDiv):
+                inv.append((node.lineno, node.col_offset, "floordiv", _norm(src, node)))
+            elif isinstance(node, ast.AugAssign) and isinstance(node.op, ast.FloorDiv):
+                inv.append((node.lineno, node.col_offset, "floordiv", _norm(src, node)))
+        inv.sort()
+        nm = "inv_" + rel[:-3]
+        names.append((rel, nm))
+        L.append("def %s : List (String × String) := %s" % (nm, lean_list(["(%s, %s)" % (lean_str(k), lean_str(t)) for _, _, k, t in inv])))
+    L.append("\ndef files : List String := %s" % lean_list([lean_str(r) for r, _ in names]))
+    L.append("\nend Strengths.Gen.PyNumeric")
     return "\n".join(L) + "\n"
